@@ -160,3 +160,5 @@ def run(ctx, rep):
     cm = compared_members(fp)
     need_ = max(1, cm.get('size', 0))
     rep.check(all(cm.get(k, 0) >= need_ for k in CORE), 'R-C01-3c', 'file_post collision test compares the full stamp', fp.file, 'comparisons per member: %s' % cm, function='file_post', construct='collision stamp')
+    from .C05 import stripe_selection_rule
+    stripe_selection_rule(P, rep, 'R-C01-8')
